@@ -137,7 +137,7 @@ def handleC19 (inp obs : List String) : Verdict :=
       (if a.cov.isSome || b.cov.isSome then ["cached-cov"] else []) ++
       (if sa.isEmpty || sb.isEmpty then ["empty-side"] else []) ++
       (if canonSE (se sa) == canonSE (se sb) && !sa.isEmpty then ["identical-sets"] else []) ++
-      (if !sa.isEmpty && !sb.isEmpty && interCount sa sb == 0 && max (maxStop sa) (maxStop sb) ≤ specLimit then ["disjoint"] else []) ++
+      (if !sa.isEmpty && !sb.isEmpty && max (maxStop sa) (maxStop sb) ≤ specLimit && interCount sa sb == 0 then ["disjoint"] else []) ++
       (if (oa ++ ob).any (fun | .setCov => true | _ => false) && (oa.reverse.takeWhile (fun | .setCov => false | _ => true)).any (fun | .insert _ => true | .merge => true | _ => false) then ["set-cov-then-mutation"] else []) ++
       (if endsMerged oa then [] else [])
     match o with
